@@ -76,7 +76,7 @@ def strace_segments(path):
         strs = [_unescape(x) for x in _STR.findall(args)]
         if strs and strs[0].startswith("/@@B/"):
             tid = pid
-            _, _, _, ci, fi = strs[0].split("/")
+            _, _, ci, fi = strs[0].split("/")
             cur = (int(ci), int(fi))
             segs[cur] = []
             cwd, fds = "/a/w/root", {}
@@ -271,12 +271,14 @@ def run():
         "io.Expand is not called on trees with a directory cycle as the sandbox sees it (it never returns there - see notes)"]
     with vf.scratch() as sd:
         # 1. the design: exhaustive at the bound, and the negative control
-        r = vf.tlc_ok(vf.tlc(SPEC, "SandboxPath_MC", "SandboxPath_MC.cfg" if thorough else "SandboxPath_MCq.cfg", sd, timeout=2400, keep_stdout=False), "SandboxPath MC")
-        chk.add_tlc(r, "MC Impl=fixed")
-        rn = vf.tlc(SPEC, "SandboxPath_MC", "SandboxPath_MC_asis.cfg", sd, timeout=900)
-        if rn.violated != "Safe":
-            raise vf.NoVerdict("negative control: the as-is SandboxJoin model did not violate Safe (%s %s)" % (rn.violated, rn.error))
-        chk.add_tlc(rn, "negative control (Impl=asis) violates Safe", count_states=False)
+        dev = bool(os.environ.get("VERIF_C26_DEV"))      # development aid: skip the model-level stage; such a run never gives a verdict
+        if not dev:
+            r = vf.tlc_ok(vf.tlc(SPEC, "SandboxPath_MC", "SandboxPath_MC.cfg" if thorough else "SandboxPath_MCq.cfg", sd, timeout=2400, keep_stdout=False), "SandboxPath MC")
+            chk.add_tlc(r, "MC Impl=fixed")
+            rn = vf.tlc(SPEC, "SandboxPath_MC", "SandboxPath_MC_asis.cfg", sd, timeout=900)
+            if rn.violated != "Safe":
+                raise vf.NoVerdict("negative control: the as-is SandboxJoin model did not violate Safe (%s %s)" % (rn.violated, rn.error))
+            chk.add_tlc(rn, "negative control (Impl=asis) violates Safe", count_states=False)
         # 2. cases
         cases = gen_cases(chk, sd, "SandboxPath_GenT.cfg" if thorough else "SandboxPath_Gen.cfg")
         bycls = {}
@@ -389,4 +391,8 @@ def run():
         for c in cases[:2]:
             chk.sample({"kind": "case", "class": c["cls"], "spelling": sp_text(c["sp"]), "tree": tree_text(c["nodes"]),
                         "observed": outsB[c["id"]]["groups"][:4]})
+        if dev:
+            for k, w, _r in chk.cands:
+                print("DEV candidate:", k, w[:300])
+            raise vf.NoVerdict("VERIF_C26_DEV run (model-level stage skipped)")
     return chk.finish()
